@@ -133,7 +133,17 @@ def chk_conv(c, note):
             return "tas2eas(%r, %r) = %r > TAS" % (v, h, eas)
         if cas < eas * (1 - 1e-9):
             return "tas2cas(%r, %r) = %r < EAS %r" % (v, h, cas, eas)
-    note.evals = 20
+    # whole-number arguments are usually passed as Python ints: same values, same results
+    vi, hi = int(round(v)) or 1, int(round(h))
+    for f in ("tas2cas", "cas2tas", "tas2eas", "eas2tas", "tas2mach", "cas2mach"):
+        a, b = call(getattr(aero, f), vi, hi), call(getattr(aero, f), float(vi), float(hi))
+        if a[0] != "ok" or b[0] != "ok" or not fin(a[1]) or rel(float(a[1]), float(b[1])) > 1e-12:
+            return "%s(%d, %d) with int arguments = %r, with the same values as floats = %r" % (f, vi, hi, a, b)
+    for f in ("pressure", "density", "temperature", "vsound"):
+        a, b = call(getattr(aero, f), hi), call(getattr(aero, f), float(hi))
+        if a[0] != "ok" or b[0] != "ok" or rel(float(a[1]), float(b[1])) > 1e-12:
+            return "%s(%d) with an int argument = %r, with a float = %r" % (f, hi, a, b)
+    note.evals = 30
     note.nt(abs(h) < 1 or abs(h - 11000) < 1 or h > 11000 or v > 250 or v < 5)
     return None
 
